@@ -144,7 +144,13 @@ vp_lru_shard(uint32_t hash) {
 void *
 ldb_malloc(size_t size) {
   void *p;
-  VP_ASSERT(size == sizeof(lru_handle_t), "vp-model: only entries with a 1-byte key are allocated");
+  if (size != sizeof(lru_handle_t)) {
+    /* only reached on the table-resize path, which is infeasible at this size
+       (elems <= 4 == length); kept apart so that the symbolic executor does
+       not merge this allocation into the pointer of the new entry */
+    VP_ASSERT(0, "vp-model: only entries with a 1-byte key are allocated (no table resize at this size)");
+    return malloc(size);
+  }
   VP_ASSERT(vp_in_op && VP_OP == VP_OP_INSERT && ent[VP_E] == NULL, "only insert allocates, one entry");
   p = malloc(sizeof(lru_handle_t));
 #ifndef VP_REPLAY
@@ -165,7 +171,12 @@ vp_any_idx(const void *p) {
 
 void
 ldb_free(void *p) {
-  int j = vp_any_idx(p), jj;
+  int j, jj;
+  if (p == (void *)&VP_TAB[0]) {
+    VP_ASSERT(0, "vp-model: the hash table array is not freed (no table resize at this size)");
+    return;
+  }
+  j = vp_any_idx(p);
   VP_ASSERT(j >= 0, "C10.b only a cache entry that has not been freed yet is freed");
   for (jj = 0; jj < VP_NE; jj++) {
     if (jj == j) {
